@@ -369,8 +369,14 @@ def run_harness(h, scratch, tier, playback=False):
             failed = [c for c in res["checks"] if c["status"] == "FAILURE"]
             undetermined = [c for c in res["checks"] if c["status"] in ("UNDETERMINED", "ERROR")]
             covers = [c for c in res["checks"] if ".cover." in c["id"]]
-            res["covers_total"] = len(covers)
-            res["covers_sat"] = len([c for c in covers if c["status"] == "SATISFIED"])
+            # covers whose description starts with "opt:" depend on the harness variant (e.g. the
+            # refusal branch of a body shared by several instantiations); at least one cover per
+            # harness and every non-optional cover must be satisfied
+            mandatory = [c for c in covers if not c["desc"].strip('"').startswith("opt:")]
+            sat = [c for c in covers if c["status"] == "SATISFIED"]
+            res["covers_total"] = len(mandatory) + (1 if len(mandatory) == 0 and covers else 0)
+            res["covers_sat"] = len([c for c in mandatory if c["status"] == "SATISFIED"]) + (1 if len(mandatory) == 0 and sat else 0)
+            res["covers_sat_all"] = len(sat)
             res["decided"] = len([c for c in res["checks"] if c["status"] in ("SUCCESS", "FAILURE")])
             bound = [c for c in failed if classify_failure(c) == "bound"]
             cand = [c for c in failed if classify_failure(c) == "candidate"]
@@ -602,7 +608,7 @@ def write_evidence(prop, tier, seed, results, violations, known_hits, inconclusi
         solver += r.get("solver_s", 0)
         ok_cov = r.get("covers_total", 0) > 0 and r.get("covers_sat") == r.get("covers_total")
         if r["outcome"] in ("passed", "failed") and h["expect"] != "fail":
-            nontrivial += r.get("covers_sat", 0) or 0
+            nontrivial += r.get("covers_sat_all", 0) or 0
         pf = poster_functions(r)
         funcs.update(pf)
         funcs.update(h["funcs"])
